@@ -133,6 +133,16 @@ Proof. exact left_assoc_spec. Qed.
 Theorem C01_right_join_tree : forall e0 ps, right_assoc (e0 :: flat ps) = right_nest e0 ps.
 Proof. exact right_assoc_spec. Qed.
 
+(* ... and nothing is lost, duplicated or reordered: the value is a left- (right-) leaning binary tree whose in-order walk
+   is exactly the flat list e0 op1 e1 op2 e2 ... the positive join matched *)
+Theorem C01_left_join_inorder : forall e0 ps,
+  exists t, left_assoc (e0 :: flat ps) = tval t /\ tin t = e0 :: flat ps /\ left_leaning t.
+Proof. exact left_join_inorder. Qed.
+
+Theorem C01_right_join_inorder : forall ps e0,
+  exists t, right_assoc (e0 :: flat ps) = tval t /\ tin t = e0 :: flat ps /\ right_leaning t.
+Proof. exact right_join_inorder. Qed.
+
 (* the full statement "a rule's value is always one element of its caller" is FALSE of the faithful model (and of the
    code: replayed by harness/props/c01.py): start = r 'c' ; r = @:('a' 'b') on "abc" yields ['a','b','c'], not [['a','b'],'c'] *)
 Theorem C01_rule_value_one_element_refuted :
@@ -142,6 +152,8 @@ Print Assumptions C01_consumed_bounds.
 Print Assumptions C01_assoc_join.
 Print Assumptions C01_left_join_tree.
 Print Assumptions C01_right_join_tree.
+Print Assumptions C01_left_join_inorder.
+Print Assumptions C01_right_join_inorder.
 Print Assumptions C01_consumed_bounds_faithful.
 Print Assumptions C01_semantics_deterministic.
 Print Assumptions C01_choice_ordered.
